@@ -372,6 +372,21 @@ def geom_tokens(m, style="1.1", rng=None):
         T["meshes"] = [(None, k) for k in range(len(m["meshes"]))]
         T["ifaces"] = [(None, [(sgn(s, False), mnum.get(mn, mn)) for s, mn in ms]) for n, ms in m["interfaces"]]
         T["domains"] = [(n, [("t", sgn(s, False), inum.get(i, i)) for s, i in bs]) for n, bs in m["domains"]]
+    elif style == "1.1m":
+        # named and unnamed entries mixed: an unnamed entry is called by its POSITION in the section (k+1)
+        if rng is None: return None
+        um = [rng.random() < 0.5 for _ in m["meshes"]]; ui = [rng.random() < 0.5 for _ in m["interfaces"]]
+        if not any(um[1:]) and len(um) > 1: um[-1] = True          # an unnamed entry after a named one
+        if um and all(um): um[0] = False
+        if not any(ui[1:]) and len(ui) > 1: ui[-1] = True
+        if ui and all(ui): ui[0] = False
+        mnum = {n: (str(k + 1) if um[k] else n) for k, (n, _, _) in enumerate(m["meshes"])}
+        inum = {n: (str(k + 1) if ui[k] else n) for k, (n, _) in enumerate(m["interfaces"])}
+        if len(set(mnum.values())) != len(m["meshes"]) or len(set(inum.values())) != len(m["interfaces"]): return None
+        T["meshes"] = [((None if um[k] else n), k) for k, (n, _, _) in enumerate(m["meshes"])]
+        T["ifaces"] = [((None if ui[k] else n), [(sgn(s, False), mnum.get(mn, mn)) for s, mn in ms]) for k, (n, ms) in enumerate(m["interfaces"])]
+        T["domains"] = [(n, [("t", sgn(s, False), inum.get(i, i)) for s, i in bs]) for n, bs in m["domains"]]
+        T["mesh_names"] = [mnum[n] for n, _, _ in m["meshes"]]; T["iface_names"] = [inum[n] for n, _ in m["interfaces"]]
     elif style == "1.0":
         if not single: return None
         inum = {n: str(k + 1) for k, (n, _) in enumerate(m["interfaces"])}
